@@ -663,3 +663,50 @@ fn da_clears_chord_key() {
     let action: Action<'_, u8> = Action::KeyCode(KeyCode::A);
     vk_da_clears_chord(&action, 1);
 }
+
+// @harness name=da_tapdance_eager prop=C17 tier=quick timeout=1800
+// @encodes Layout::do_action (TapDance arm, eager form: state creation / replacement, first action performed)
+// @inst Layout<3, 2, u8>
+// @bounds constant tap-dance-eager(timeout 300, actions [x, y, z]); pre-state: symbolically no eager dance / a dance of ANOTHER key (with a different configured timeout 50) / a dance of the SAME key; symbolic delay
+// @assumes none beyond the bounds
+// @spec the first tap performs the first action at once; a dance started on this key (fresh, or taking over from another key's dance) counts 1 tap and uses THIS key's timeout both as the remaining and as the restart value; a dance already running on this key is left untouched
+#[kani::proof]
+#[kani::unwind(5)]
+fn da_tapdance_eager() {
+    let a0: Action<'_, u8> = Action::KeyCode(KeyCode::X);
+    let a1: Action<'_, u8> = Action::KeyCode(KeyCode::Y);
+    let a2: Action<'_, u8> = Action::KeyCode(KeyCode::Z);
+    let acts: [&Action<'_, u8>; 3] = [&a0, &a1, &a2];
+    let td: TapDance<'_, u8> = TapDance { actions: &acts, timeout: 300, config: TapDanceConfig::Eager };
+    let action: Action<'_, u8> = Action::TapDance(&td);
+    let mut l: Layout<'_, 3, 2, u8> = vk_layout_literal(&VK_SRC, &VK_LAYERS);
+    let coord: KCoord = (0, 1);
+    let pre: u8 = kani::any();
+    kani::assume(pre < 3);
+    let other_acts: [&Action<'_, u8>; 2] = [&a1, &a2];
+    let n_same: u16 = kani::any();
+    kani::assume(n_same >= 1 && n_same <= 3);
+    let t_same: u16 = kani::any();
+    match pre {
+        0 => {}
+        1 => l.tap_dance_eager = Some(TapDanceEagerState { coord: (0, 2), actions: &other_acts, timeout: kani::any(), orig_timeout: 50, num_taps: 1 }),
+        _ => l.tap_dance_eager = Some(TapDanceEagerState { coord, actions: &acts, timeout: t_same, orig_timeout: 300, num_taps: n_same }),
+    }
+    let _ = l.do_action(&action, coord, kani::any(), false, &mut std::iter::empty::<u16>());
+    assert!(l.states.len() == 1, "each tap of the eager form performs an action immediately");
+    assert!(matches!(l.states[0], NormalKey { keycode: KeyCode::X, coord: c, .. } if c == coord));
+    match &l.tap_dance_eager {
+        Some(s) => {
+            assert!(s.coord == coord && s.actions.len() == 3);
+            if pre == 2 {
+                assert!(s.num_taps == n_same && s.timeout == t_same && s.orig_timeout == 300);
+            } else {
+                assert!(s.num_taps == 1 && s.timeout == 300);
+                assert!(s.orig_timeout == 300, "later taps restart the countdown with this key's own timeout");
+            }
+        }
+        None => assert!(false, "an eager dance is in progress after the first tap"),
+    }
+    kani::cover!(pre == 1, "takes over from another key's dance");
+    core::mem::forget(l);
+}
